@@ -429,3 +429,132 @@ Proof.
     + specialize (EL TP). fold s. lia.
     + split; [exact R1 | fold s in R2; rewrite R2; reflexivity].
 Qed.
+
+(* ---- expiry: the entry is gone once the clock has reached its deadline ---- *)
+Lemma lookup_filter_none : forall {V} (f : key * V -> bool) (m : list (key * V)) k,
+  lookup m k = None -> lookup (filter f m) k = None.
+Proof.
+  induction m as [|[k0 v0] t IH]; intros k L; simpl in *; [reflexivity|].
+  destruct (key_eqb k k0) eqn:E; [discriminate|].
+  destruct (f (k0, v0)); simpl; [rewrite E|]; apply IH; exact L.
+Qed.
+Lemma lookup_filter_drop : forall {V} (f : key * V -> bool) (m : list (key * V)) k x,
+  NoDup (map fst m) -> lookup m k = Some x -> f (k, x) = false -> lookup (filter f m) k = None.
+Proof.
+  induction m as [|[k0 v0] t IH]; intros k x N L F; simpl in *; [reflexivity|].
+  inversion N as [|? ? NI Nt]; subst.
+  destruct (key_eqb k k0) eqn:E.
+  - apply key_eqb_eq in E. inversion L. subst. rewrite F. apply lookup_filter_none. apply notin_lookup_none. exact NI.
+  - destruct (f (k0, v0)); simpl; [rewrite E|]; eapply IH; eauto.
+Qed.
+
+(* a quiet operation does not create the status entry *)
+Lemma spec_frame_none : forall s o sk,
+  is_status_key sk = true -> quiet sk o = true -> lookup (r_kv s) sk = None ->
+  lookup (r_kv (fst (spec_step s o))) sk = None.
+Proof.
+  intros s o sk S Q L. unfold spec_step.
+  destruct o; cbn [read_op]; try exact L;
+    try (match goal with |- context [list_prefix ?a ?e ?n] => destruct (list_prefix a e n) as [[? ?] ?]; exact L end).
+  - unfold s_create. cbn [map fst existsb].
+    destruct (s_mem s (KPod p) || false); cbn [fst]; [exact L|].
+    rewrite lookup_s_puts; auto. intros k [H|[]]. subst. reflexivity.
+  - destruct (v_get_nodes_by_pod (s_view s) p [] true) as [[|x t]|e]; try exact L.
+    destruct (s_mem s (KPod p)); cbn [fst]; [|exact L].
+    rewrite lookup_s_dels; auto. intros k [H|[]]. subst. destruct sk; try discriminate S; reflexivity.
+  - destruct (lookup (s_view s) (KPod (n_pod nd))) as [[]|]; try exact L.
+    pose proof (nonstatus_add_node nd ca cert key) as N.
+    unfold s_create. destruct (add_node_data nd ca cert key) as [|d0 t0]; [exact L|].
+    destruct (existsb (s_mem s) (map fst (d0 :: t0))); cbn [fst]; [exact L|].
+    rewrite lookup_s_puts; auto.
+  - cbn [fst]. rewrite lookup_s_dels; auto. unfold remove_node_keys.
+    intros k H. simpl in H. destruct sk; try discriminate S; repeat (destruct H as [H|H]; [subst; reflexivity|]); contradiction.
+  - pose proof (nonstatus_update_nodes l) as N.
+    destruct (update_nodes_data l) as [|d0 t0]; [exact L|]. cbn [fst]. rewrite lookup_s_puts; auto.
+  - cbn [quiet] in Q. apply negb_true_iff in Q.
+    destruct (ttl =? 0); [exact L|]. destruct (ttl <? 0).
+    + cbn [fst]. rewrite lookup_s_dels; auto. intros k [H|[]]. subst. exact Q.
+    + destruct (s_mem s (KNode n)); cbn [fst]; [|exact L].
+      unfold s_put. simpl. rewrite lookup_put_other; auto.
+  - destruct (w_parse w) as [[a e]|]; [|exact L].
+    pose proof (nonstatus_workload w a e) as N.
+    destruct pr as [p0|].
+    + destruct (lookup (s_view s) (proc_key p0)) as [[]|]; try exact L.
+      cbn [fst]. rewrite lookup_s_puts; auto. apply nonstatus_app; auto.
+      intros k [H|[]]. subst. reflexivity.
+    + unfold s_create. destruct (workload_data w a e) as [|d0 t0]; [exact L|].
+      destruct (existsb (s_mem s) (map fst (d0 :: t0))); cbn [res_unit fst]; [exact L|].
+      rewrite lookup_s_puts; auto.
+  - destruct (w_parse w) as [[a e]|]; [|exact L].
+    pose proof (nonstatus_workload w a e) as N.
+    unfold s_update. destruct (workload_data w a e) as [|d0 t0]; [exact L|].
+    destruct (forallb (s_mem s) (map fst (d0 :: t0))); cbn [res_unit fst]; [|exact L].
+    rewrite lookup_s_puts; auto.
+  - cbn [quiet] in Q. destruct (w_parse w) as [[a e]|]; [|exact L].
+    apply negb_true_iff in Q. cbn [fst]. rewrite lookup_s_dels; auto. unfold clean_keys.
+    intros k H. simpl in H. destruct H as [H|H]; [subst; exact Q|].
+    destruct sk; try discriminate S; repeat (destruct H as [H|H]; [subst; reflexivity|]); contradiction.
+  - cbn [quiet] in Q. apply negb_true_iff in Q.
+    destruct (status_args_bad a e n); [exact L|].
+    destruct (ttl =? 0); [cbn [fst]; unfold s_put; simpl; rewrite lookup_put_other; auto|].
+    destruct (s_mem s (KWl (ws_id st))); cbn [fst]; [|exact L].
+    unfold s_put. simpl. rewrite lookup_put_other; auto.
+  - unfold s_create. cbn [map fst existsb].
+    destruct (s_mem s (proc_key pr) || false); cbn [res_unit fst]; [exact L|].
+    rewrite lookup_s_puts; auto. intros k [H|[]]. subst. reflexivity.
+  - cbn [fst]. rewrite lookup_s_dels; auto. intros k [H|[]]. subst. destruct sk; try discriminate S; reflexivity.
+  - cbn [fst]. unfold r_tick. cbn [r_kv]. apply lookup_filter_none. exact L.
+Qed.
+
+(* the entry is gone once the clock has reached its deadline *)
+Theorem spec_status_expires : forall h s sk v e,
+  is_status_key sk = true -> NoDup (map fst (r_kv s)) ->
+  (lookup (r_kv s) sk = None \/ (lookup (r_kv s) sk = Some (mkS v (Some e)) /\ r_now s < e)) ->
+  forallb (quiet sk) h = true -> advances_nonneg h ->
+  e <= r_now s + elapsed h ->
+  lookup (r_kv (fst (run spec_step s h))) sk = None.
+Proof.
+  induction h as [|o t IH]; intros s sk v e S N P Q AN B; cbn [run fst].
+  - cbn [elapsed fold_right] in B. destruct P as [P | [P1 P2]]; [exact P | lia].
+  - cbn [forallb] in Q. apply andb_true_iff in Q. destruct Q as [Q1 Q2].
+    assert (ANt : advances_nonneg t) by (intros d H; apply AN; right; exact H).
+    pose proof (spec_now s o) as NW. pose proof (spec_nodup s o N) as N1.
+    assert (P' : lookup (r_kv (fst (spec_step s o))) sk = None \/
+                 (lookup (r_kv (fst (spec_step s o))) sk = Some (mkS v (Some e)) /\ r_now (fst (spec_step s o)) < e)).
+    { destruct P as [P | [P1 P2]]; [left; apply spec_frame_none; auto|].
+      destruct o; try (right; split; [apply spec_frame; auto | rewrite NW; exact P2]).
+      (* Advance *)
+      destruct (Z_lt_dec (r_now s + d) e) as [LT | GE].
+      - right. split; [apply spec_frame; auto | rewrite NW; exact LT].
+      - left. unfold spec_step. cbn [read_op fst]. unfold r_tick. cbn [r_kv].
+        eapply lookup_filter_drop; [exact N | exact P1 |]. cbn [snd s_exp].
+        apply negb_false_iff. apply Z.leb_le. lia. }
+    destruct (spec_step s o) as [s1 r] eqn:ST. cbn [fst] in *.
+    specialize (IH s1 sk v e S N1 P' Q2 ANt).
+    destruct (run spec_step s1 t) as [s2 rs]. cbn [fst] in *. apply IH.
+    rewrite NW. destruct o; cbn [elapsed fold_right] in B; fold (elapsed t) in B; lia.
+Qed.
+
+Lemma abs_nodup : forall s, inv s -> NoDup (map fst (r_kv (abs s))).
+Proof. intros s I. unfold abs, abs_kv. cbn [r_kv]. rewrite keys_mapv. apply I. Qed.
+
+Definition C25_etcd_node_expires_stmt : Prop :=
+  forall (h0 : list op) (n p : name) (ttl : Z) (h : list op),
+    let s := fst (run estep e_init h0) in
+    0 < ttl -> mem (e_kv s) (KNode n) = true ->
+    forallb (quiet (KNStatus n)) h = true -> advances_nonneg h -> ttl <= elapsed h ->
+    snd (estep (fst (run estep (fst (estep s (OSetNodeStatus n p ttl))) h)) (OGetNodeStatus n)) = RErr ECount.
+Lemma C25_etcd_node_expires_holds : C25_etcd_node_expires_stmt.
+Proof.
+  intros h0 n p ttl h s T M Q AN EL. pose proof (etcd_reach_inv h0) as I. fold s in I.
+  destruct (estep_refines s (OSetNodeStatus n p ttl) I) as [E I1].
+  rewrite (spec_node_report (abs s) n p ttl T), mem_abs, M in E.
+  apply pair_equal_spec in E. destruct E as [E1 E2].
+  set (s1 := fst (estep s (OSetNodeStatus n p ttl))) in *.
+  pose proof (etcd_lookup_after s1 h (KNStatus n) I1) as LA. rewrite <- E1 in LA.
+  rewrite (spec_status_expires h _ (KNStatus n) (VNSt n p) (r_now (abs s) + ttl)) in LA; auto.
+  - set (sf := fst (run estep s1 h)) in *. unfold estep. cbn [read_op]. unfold v_get_one. rewrite LA. reflexivity.
+  - rewrite E1. apply abs_nodup. exact I1.
+  - right. split; [unfold s_put; cbn [r_kv]; apply lookup_put_same | unfold s_put; cbn [r_now]; lia].
+  - unfold s_put. cbn [r_now]. lia.
+Qed.
